@@ -1,10 +1,1990 @@
-//! C10 stub (being written)
+//! C10 — graceful-restart helper: stale routes live only while a timer or an
+//! End-of-RIB is pending.
+//!
+//! Two layers drive the same op histories and are judged by the same oracle:
+//!
+//! * L1 — real `TableManager` + `PeerContext` + the real `apply_disconnect`,
+//!   `process_effects(GrSessionEstablished / GrEorReceived)`, `negotiate_gr`,
+//!   `negotiate_llgr`, `families_to_drop_on_disconnect`, `gr_on_disconnect`
+//!   and the real timer tasks, on `PeerSession::new_for_test` sessions.  A drop
+//!   is the table calls of the `session_loop` tail, in its order, followed by
+//!   `apply_disconnect`.
+//! * L2 — the real `accept_connection` + `PeerSession::run` over loopback TCP,
+//!   the harness being the remote speaker (OPEN with generated GR / LLGR
+//!   capabilities, UPDATEs, EOR, NOTIFICATIONs, garbage, TCP close).
+//!
+//! Timer expiry is an event of the history: the restart timer and the
+//! per-family LLGR timers are fired through the daemon's own one-shot senders.
+//! Quiescence is detected by state: number of live timer tasks (strong count
+//! of the `PeerContext` Arc minus the known holders) == number of armed slots.
+//!
+//! The oracle is written from the property statement; every announced path
+//! carries MED = session epoch * 1000 + sequence number, so a path read back
+//! from the RIB identifies the session that wrote it.
 use super::super::*;
 use super::common::*;
+use bytes::BytesMut;
+use std::collections::{BTreeMap, BTreeSet};
+use std::net::{IpAddr, Ipv4Addr, Ipv6Addr};
+use tokio::io::AsyncWriteExt;
+use tokio::net::{TcpListener, TcpStream};
+
+const FAMS: [Family; 2] = [Family::IPV4, Family::IPV6];
+const FNAME: [&str; 2] = ["v4", "v6"];
+const LOCAL_ASN: u32 = 65001;
+const REMOTE_ASN: u32 = 65002;
+const RESTART_TIME: u16 = 4095;
+const LLGR_TIME: u32 = 1_000_000;
+const PREFIX_LIMIT: u32 = 4;
+
+/// bit i = FAMS[i]
+type FSet = u8;
+
+fn fset_vec(s: FSet) -> Vec<Family> {
+    (0..2).filter(|i| s & (1 << i) != 0).map(|i| FAMS[i]).collect()
+}
+fn fset_str(s: FSet) -> String {
+    let v: Vec<&str> = (0..2).filter(|i| s & (1 << i) != 0).map(|i| FNAME[i]).collect();
+    if v.is_empty() { "-".into() } else { v.join("+") }
+}
+fn fidx(f: Family) -> Option<usize> {
+    FAMS.iter().position(|x| *x == f)
+}
+fn has(s: FSet, i: usize) -> bool {
+    s & (1 << i) != 0
+}
+
+// ------------------------------------------------------------------ histories
+
+/// What the local side (the daemon) is configured with for this peer.
+#[derive(Clone, Debug, PartialEq)]
+struct LocalCfg {
+    /// GR families (0 = GR not configured)
+    gr: FSet,
+    nbit: bool,
+    /// LLGR families (0 = LLGR not configured)
+    llgr: FSet,
+    shards: usize,
+    /// L2 only: per-family prefix limit of PREFIX_LIMIT on IPv4
+    prefix_limit: bool,
+}
+
+/// What the remote speaker advertises in one OPEN.
+#[derive(Clone, Copy, Debug, PartialEq)]
+struct CapSpec {
+    mp: FSet,
+    /// (families, N-bit, per-family F-bits)
+    gr: Option<(FSet, bool, FSet)>,
+    llgr: FSet,
+}
+
+#[derive(Clone, Copy, Debug, PartialEq)]
+enum ConnOutcome {
+    Full,
+    DieBeforeOpen,
+    DieAfterOpen,
+}
+
+#[derive(Clone, Copy, Debug, PartialEq)]
+enum AttrKind {
+    Plain,
+    /// carries NO_LLGR (0xFFFF0007)
+    NoLlgr,
+    /// carries LLGR_STALE (0xFFFF0006), as received from another helper upstream
+    LlgrStaleComm,
+}
+
+#[derive(Clone, Copy, Debug, PartialEq)]
+enum DropHow {
+    TcpRst,
+    TcpFin,
+    /// remote speaker sends NOTIFICATION code/subcode
+    Notif(u8, u8),
+    /// remote speaker sends an unparsable message; the daemon answers with a header-error NOTIFICATION
+    Garbage,
+    /// remote speaker exceeds the configured prefix limit; the daemon sends Cease/1 (L2, cfg.prefix_limit)
+    MaxPrefix,
+    /// API shutdown_peer: force_down(AdminShutdown)
+    ApiShutdown,
+    /// API reset_peer: force_down(SendMessage(Cease/peer-deconfigured))
+    ApiReset,
+    /// BFD down: force_down(Silent)
+    ApiSilent,
+    /// the daemon's hold timer expires (L1 only: too slow over TCP)
+    HoldTimer,
+}
+
+#[derive(Clone, Debug, PartialEq)]
+enum Op {
+    Connect { spec: CapSpec, outcome: ConnOutcome },
+    Announce { fam: usize, pfx: u8, kind: AttrKind },
+    Withdraw { fam: usize, pfx: u8 },
+    Eor { fam: usize },
+    Drop { how: DropHow },
+    FireRestart,
+    FireLlgr { fam: usize },
+    /// API reset/shutdown while no session is up (fires the pending timers)
+    ForceDownIdle,
+}
+
+impl Op {
+    fn kind(&self) -> &'static str {
+        match self {
+            Op::Connect { outcome: ConnOutcome::Full, .. } => "connect-ok",
+            Op::Connect { outcome: ConnOutcome::DieBeforeOpen, .. } => "reconnect-fail-before-open",
+            Op::Connect { outcome: ConnOutcome::DieAfterOpen, .. } => "reconnect-fail-after-open",
+            Op::Announce { .. } => "announce",
+            Op::Withdraw { .. } => "withdraw",
+            Op::Eor { .. } => "eor",
+            Op::Drop { .. } => "drop",
+            Op::FireRestart => "restart-timer",
+            Op::FireLlgr { .. } => "llgr-timer",
+            Op::ForceDownIdle => "force-down",
+        }
+    }
+}
+
+// ------------------------------------------------------------------ observation
+
+#[derive(Clone, Debug, PartialEq, Eq, PartialOrd, Ord)]
+struct PathObs {
+    fam: usize,
+    pfx: u8,
+    /// MED of the path = epoch * 1000 + seq
+    tag: u32,
+    stale: bool,
+    llgr_stale: bool,
+    no_llgr: bool,
+    llgr_comm: bool,
+}
+
+#[derive(Clone, Debug, PartialEq)]
+struct Obs {
+    paths: Vec<PathObs>,
+    gr_timer: bool,
+    llgr_timers: FSet,
+    restarting: bool,
+}
+
+impl Obs {
+    fn render(&self) -> String {
+        let p: Vec<String> = self
+            .paths
+            .iter()
+            .map(|p| {
+                format!(
+                    "{}/{}@{}{}{}{}{}",
+                    FNAME[p.fam],
+                    p.pfx,
+                    p.tag,
+                    if p.stale { ":stale" } else { "" },
+                    if p.llgr_stale { ":llgr-stale" } else { "" },
+                    if p.no_llgr { ":NO_LLGR" } else { "" },
+                    if p.llgr_comm { ":LLGR_STALE-comm" } else { "" }
+                )
+            })
+            .collect();
+        format!(
+            "rib=[{}] restart-timer={} llgr-timers={} is_peer_restarting={}",
+            p.join(" "),
+            if self.gr_timer { "armed" } else { "-" },
+            fset_str(self.llgr_timers),
+            self.restarting
+        )
+    }
+}
+
+fn has_comm(attr: &[packet::Attribute], c: u32) -> bool {
+    attr.iter()
+        .find(|a| a.code() == packet::Attribute::COMMUNITY)
+        .and_then(|a| a.binary())
+        .is_some_and(|b| b.chunks(4).any(|x| x.len() == 4 && u32::from_be_bytes([x[0], x[1], x[2], x[3]]) == c))
+}
+
+fn observe(tables: &TableHandle, ctx: &Arc<std::sync::Mutex<PeerContext>>, addr: IpAddr) -> Obs {
+    let mut paths = Vec::new();
+    for (fi, f) in FAMS.iter().enumerate() {
+        for d in tables.collect_paths(table::TableQuery::AdjIn(addr), *f, vec![], true) {
+            let pfx = match &d.net {
+                packet::Nlri::V4(n) => n.addr.octets()[1],
+                packet::Nlri::V6(n) => n.addr.segments()[2] as u8,
+                _ => 255,
+            };
+            for p in d.paths {
+                let tag = p
+                    .attr
+                    .iter()
+                    .find(|a| a.code() == packet::Attribute::MULTI_EXIT_DESC)
+                    .and_then(|a| a.value())
+                    .unwrap_or(0);
+                paths.push(PathObs {
+                    fam: fi,
+                    pfx,
+                    tag,
+                    stale: p.stale,
+                    llgr_stale: p.source.is_llgr_stale(),
+                    no_llgr: has_comm(&p.attr, 0xffff_0007),
+                    llgr_comm: has_comm(&p.attr, 0xffff_0006),
+                });
+            }
+        }
+    }
+    paths.sort();
+    let c = ctx.lock().unwrap();
+    let gr_timer = c.gr_restart_timer.as_ref().is_some_and(|t| !t.is_closed());
+    let mut llgr_timers = 0;
+    for (f, t) in c.llgr_family_timers.iter() {
+        if let Some(i) = fidx(*f)
+            && !t.is_closed()
+        {
+            llgr_timers |= 1 << i;
+        }
+    }
+    Obs { paths, gr_timer, llgr_timers, restarting: c.gr_state.is_peer_restarting() }
+}
+
+/// Quiescence of the timer machinery, by state: every armed slot has exactly
+/// one live timer task (each task owns one clone of the context Arc), and no
+/// fired / cancelled task is still running.  `base` = holders that are not
+/// timer tasks.
+async fn wait_quiet(ctx: &Arc<std::sync::Mutex<PeerContext>>, base: usize) -> Result<(), HErr> {
+    let deadline = std::time::Instant::now() + std::time::Duration::from_secs(15);
+    let mut i = 0u32;
+    loop {
+        let armed = {
+            let c = ctx.lock().unwrap();
+            c.gr_restart_timer.is_some() as usize + c.llgr_family_timers.len() + c.rtc_eor_timer.is_some() as usize
+        };
+        let strong = Arc::strong_count(ctx);
+        if strong == base + armed {
+            return Ok(());
+        }
+        if std::time::Instant::now() > deadline {
+            return Err(HErr::Watchdog(format!(
+                "timer tasks did not settle: context holders {} != base {} + armed slots {}",
+                strong, base, armed
+            )));
+        }
+        if i < 64 {
+            tokio::task::yield_now().await;
+        } else {
+            tokio::time::sleep(std::time::Duration::from_millis(1)).await;
+        }
+        i += 1;
+    }
+}
+
+#[derive(Debug, Clone)]
+enum HErr {
+    Io(String),
+    Watchdog(String),
+    Harness(String),
+    Panic(String, String),
+}
+
+// ------------------------------------------------------------------ oracle
+
+#[derive(Clone, Copy, PartialEq, Debug)]
+enum DropClass {
+    /// the statement / RFC 4724 demand helper mode
+    MustHelp,
+    /// the statement forbids helper mode
+    MustNot,
+    /// the statement is silent: both outcomes accepted
+    Either,
+    /// neither GR nor LLGR negotiated on the dropped session
+    Plain,
+}
+
+/// Eligibility decided from the statement ("a hard reset, admin shutdown or
+/// non-Cease error never enters helper mode"), RFC 4724 (TCP failure => helper;
+/// NOTIFICATION => no helper) and RFC 8538 (N-bit: the statement is silent on
+/// Cease NOTIFICATIONs other than hard reset and on hold-timer expiry, so both
+/// outcomes are accepted there).
+fn classify(how: DropHow, negotiated_any: bool, nbit: bool) -> (DropClass, &'static str) {
+    let (c, l) = match how {
+        DropHow::TcpRst | DropHow::TcpFin => (DropClass::MustHelp, "tcp-close"),
+        DropHow::Notif(6, 9) => (DropClass::MustNot, "hard-reset"),
+        DropHow::Notif(6, _) | DropHow::MaxPrefix => {
+            if nbit { (DropClass::Either, "cease-nbit") } else { (DropClass::MustNot, "notification-no-nbit") }
+        }
+        DropHow::Notif(4, _) | DropHow::HoldTimer => {
+            if nbit { (DropClass::Either, "hold-timer-nbit") } else { (DropClass::MustNot, "notification-no-nbit") }
+        }
+        DropHow::Notif(_, _) | DropHow::Garbage => (DropClass::MustNot, "non-cease-error"),
+        DropHow::ApiShutdown | DropHow::ApiReset | DropHow::ApiSilent => (DropClass::MustNot, "admin-shutdown"),
+    };
+    if negotiated_any { (c, l) } else { (DropClass::Plain, l) }
+}
+
+#[derive(Clone, Debug)]
+struct Live {
+    epoch: u32,
+    fams: FSet,
+    gr: FSet,
+    nbit: bool,
+    llgr: FSet,
+    eor_seen: FSet,
+    /// (family, prefix) -> (tag, kind) announced on this session and not withdrawn
+    announced: BTreeMap<(usize, u8), (u32, AttrKind)>,
+    seq: u32,
+}
+
+/// What the executor did (abstract event), judged against pre/post observations.
+#[derive(Clone, Debug)]
+enum Ev {
+    Established { spec: CapSpec },
+    ReconnectFail { after_open: bool },
+    Announced { fam: usize, pfx: u8, tag: u32, kind: AttrKind },
+    Withdrawn { fam: usize, pfx: u8 },
+    Eor { fam: usize },
+    Dropped { how: DropHow },
+    RestartFired,
+    LlgrFired { fam: usize },
+    ForcedDownIdle,
+}
+
+#[derive(Clone, Debug)]
+struct Finding {
+    clause: &'static str,
+    event: String,
+    fact: String,
+    detail: String,
+}
+
+impl Finding {
+    fn sig(&self) -> String {
+        format!("C10/{}/{}/{}", self.clause, self.event, self.fact)
+    }
+}
+
+#[derive(Default, Clone)]
+struct Stats {
+    c: BTreeMap<String, u64>,
+}
+impl Stats {
+    fn add(&mut self, k: &str) {
+        *self.c.entry(k.to_string()).or_insert(0) += 1;
+    }
+}
+
+struct Model {
+    cfg: LocalCfg,
+    live: Option<Live>,
+    epochs: u32,
+    /// a GR-eligible drop kept stale routes at some point of this history
+    retained_stale: bool,
+    /// ... and a later step was judged while they (or their absence) mattered
+    judged_after_retention: bool,
+}
+
+impl Model {
+    fn new(cfg: &LocalCfg) -> Model {
+        Model { cfg: cfg.clone(), live: None, epochs: 0, retained_stale: false, judged_after_retention: false }
+    }
+
+    /// negotiation per RFC 4724 / 8538 / 9494: intersection of what both sides advertised
+    fn negotiate(&self, spec: &CapSpec) -> (FSet, FSet, bool, FSet) {
+        let fams = spec.mp & 0b11;
+        let (gr, nbit) = match spec.gr {
+            Some((f, n, _)) if self.cfg.gr != 0 => (f & self.cfg.gr, n && self.cfg.nbit),
+            _ => (0, false),
+        };
+        let nbit = nbit && gr != 0;
+        let llgr = spec.llgr & self.cfg.llgr;
+        (fams, gr, nbit, llgr)
+    }
+
+    fn is_old(&self, p: &PathObs) -> bool {
+        match &self.live {
+            None => true,
+            Some(l) => p.tag / 1000 != l.epoch,
+        }
+    }
+
+    fn stale_like(&self, p: &PathObs) -> bool {
+        self.is_old(p) || p.stale || p.llgr_stale
+    }
+
+    fn step(&mut self, ev: &Ev, pre: &Obs, post: &Obs, st: &mut Stats) -> Vec<Finding> {
+        let mut out: Vec<Finding> = Vec::new();
+        let mut skip_i1: FSet = 0;
+        let mut check_i5 = true;
+        let label: String;
+        match ev {
+            Ev::Established { spec } => {
+                self.epochs += 1;
+                let (fams, gr, nbit, llgr) = self.negotiate(spec);
+                self.live = Some(Live {
+                    epoch: self.epochs,
+                    fams,
+                    gr,
+                    nbit,
+                    llgr,
+                    eor_seen: 0,
+                    announced: BTreeMap::new(),
+                    seq: 0,
+                });
+                label = "established".into();
+                if self.retained_stale {
+                    self.judged_after_retention = true;
+                    st.add(if gr != 0 { "established:after-retention:gr-renegotiated" } else { "established:after-retention:no-gr" });
+                }
+            }
+            Ev::ReconnectFail { after_open } => {
+                label = if *after_open { "reconnect-fail-after-open".into() } else { "reconnect-fail-before-open".into() };
+                if pre.gr_timer || pre.llgr_timers != 0 {
+                    st.add("I6:judged");
+                    self.judged_after_retention = true;
+                    if pre.gr_timer && !post.gr_timer {
+                        out.push(Finding {
+                            clause: "I6",
+                            event: label.clone(),
+                            fact: "restart-timer-disarmed".into(),
+                            detail: "the restart timer was armed before the failed reconnection attempt and is not armed after it".into(),
+                        });
+                    }
+                    if pre.llgr_timers & !post.llgr_timers != 0 {
+                        out.push(Finding {
+                            clause: "I6",
+                            event: label.clone(),
+                            fact: "llgr-timer-disarmed".into(),
+                            detail: format!("LLGR timers {} armed before, {} after", fset_str(pre.llgr_timers), fset_str(post.llgr_timers)),
+                        });
+                    }
+                    if pre.paths.iter().any(|p| !post.paths.contains(p)) {
+                        st.add("unjudged:routes-changed-by-failed-reconnect");
+                    }
+                }
+            }
+            Ev::Announced { fam, pfx, tag, kind } => {
+                label = "announce".into();
+                check_i5 = false;
+                if let Some(l) = self.live.as_mut() {
+                    l.announced.insert((*fam, *pfx), (*tag, *kind));
+                }
+            }
+            Ev::Withdrawn { fam, pfx } => {
+                label = "withdraw".into();
+                check_i5 = false;
+                if let Some(l) = self.live.as_mut() {
+                    l.announced.remove(&(*fam, *pfx));
+                }
+            }
+            Ev::Eor { fam } => {
+                label = "eor".into();
+                if let Some(l) = self.live.as_mut() {
+                    l.eor_seen |= 1 << fam;
+                }
+                let had = pre.paths.iter().any(|p| p.fam == *fam && self.stale_like(p));
+                if had {
+                    st.add("I4:eor:judged");
+                    self.judged_after_retention = true;
+                }
+                let left: Vec<&PathObs> = post.paths.iter().filter(|p| p.fam == *fam && self.stale_like(p)).collect();
+                if !left.is_empty() {
+                    skip_i1 |= 1 << fam;
+                    out.push(Finding {
+                        clause: "I4",
+                        event: label.clone(),
+                        fact: "stale-remains".into(),
+                        detail: format!("after End-of-RIB for {} on the new session {} path(s) of the old session remain", FNAME[*fam], left.len()),
+                    });
+                }
+            }
+            Ev::Dropped { how } => {
+                let l = self.live.take();
+                let (fams, gr, nbit, llgr) = match &l {
+                    Some(l) => (l.fams, l.gr, l.nbit, l.llgr),
+                    None => (0, 0, false, 0),
+                };
+                let neg = gr | llgr;
+                let (class, dl) = classify(*how, neg != 0, nbit);
+                label = dl.into();
+                st.add(&format!("drop:{}", dl));
+                let entered = post.restarting || post.gr_timer || post.llgr_timers != 0;
+                let judge_i2 = match class {
+                    DropClass::MustHelp => true,
+                    DropClass::Either => {
+                        st.add(if entered { "either:helper-entered" } else { "either:helper-not-entered" });
+                        entered
+                    }
+                    _ => false,
+                };
+                if judge_i2 {
+                    st.add("I2:judged");
+                    let _ = fams;
+                    for f in 0..2 {
+                        let pre_f: Vec<&PathObs> = pre.paths.iter().filter(|p| p.fam == f).collect();
+                        let post_f: Vec<&PathObs> = post.paths.iter().filter(|p| p.fam == f).collect();
+                        if has(neg, f) {
+                            let llgr_started = has(post.llgr_timers, f) && !post.gr_timer;
+                            let lost = pre_f
+                                .iter()
+                                .filter(|p| !(llgr_started && p.no_llgr))
+                                .filter(|p| !post_f.iter().any(|q| q.pfx == p.pfx && q.tag == p.tag))
+                                .count();
+                            if lost > 0 {
+                                skip_i1 |= 1 << f;
+                                out.push(Finding {
+                                    clause: "I2",
+                                    event: label.clone(),
+                                    fact: "negotiated-family-not-kept".into(),
+                                    detail: format!("{} of {} path(s) of negotiated family {} are gone after a GR-eligible drop", lost, pre_f.len(), FNAME[f]),
+                                });
+                            }
+                            let unmarked = post_f.iter().filter(|q| !(q.stale || q.llgr_stale)).count();
+                            if unmarked > 0 {
+                                skip_i1 |= 1 << f;
+                                let llgr_only = !has(gr, f) && gr != 0;
+                                out.push(Finding {
+                                    clause: "I2",
+                                    event: label.clone(),
+                                    fact: if llgr_only { "llgr-only-family-kept-unmarked".into() } else { "kept-unmarked".into() },
+                                    detail: format!("{} kept path(s) of negotiated family {} carry neither the stale nor the LLGR-stale mark", unmarked, FNAME[f]),
+                                });
+                            }
+                            if !post_f.is_empty() {
+                                self.retained_stale = true;
+                                st.add("I2:family-kept-stale");
+                            }
+                        } else {
+                            if !pre_f.is_empty() {
+                                st.add("I2:other-family-judged");
+                            }
+                            if !post_f.is_empty() {
+                                skip_i1 |= 1 << f;
+                                out.push(Finding {
+                                    clause: "I2",
+                                    event: label.clone(),
+                                    fact: "other-family-survives".into(),
+                                    detail: format!("{} path(s) of {} (not negotiated for GR/LLGR) survive the drop", post_f.len(), FNAME[f]),
+                                });
+                            }
+                        }
+                    }
+                }
+                if class == DropClass::MustNot {
+                    st.add("I3:judged");
+                    if !pre.paths.is_empty() {
+                        st.add("I3:judged-with-routes");
+                    }
+                    if self.retained_stale {
+                        self.judged_after_retention = true;
+                    }
+                    if !post.paths.is_empty() {
+                        skip_i1 = 0b11;
+                        let flagged = post.paths.iter().filter(|p| p.stale || p.llgr_stale).count();
+                        out.push(Finding {
+                            clause: "I3",
+                            event: label.clone(),
+                            fact: "routes-survive".into(),
+                            detail: format!("{} path(s) of the peer survive a drop that must not enter helper mode ({} marked stale)", post.paths.len(), flagged),
+                        });
+                    }
+                    if post.restarting {
+                        out.push(Finding {
+                            clause: "I3",
+                            event: label.clone(),
+                            fact: "helper-state-entered".into(),
+                            detail: "GrState::is_peer_restarting() is true after a drop that must not enter helper mode".into(),
+                        });
+                    }
+                    if post.gr_timer || post.llgr_timers != 0 {
+                        out.push(Finding {
+                            clause: "I3",
+                            event: label.clone(),
+                            fact: "timer-armed".into(),
+                            detail: "a restart / LLGR timer is armed after a drop that must not enter helper mode".into(),
+                        });
+                    }
+                }
+            }
+            Ev::RestartFired => {
+                label = "restart-timer".into();
+                st.add("I4:restart-timer:judged");
+                self.judged_after_retention = true;
+                for f in 0..2 {
+                    let left = post.paths.iter().filter(|p| p.fam == f && self.stale_like(p)).count();
+                    if left > 0 && !has(post.llgr_timers, f) && self.live.is_none() {
+                        skip_i1 |= 1 << f;
+                        out.push(Finding {
+                            clause: "I4",
+                            event: label.clone(),
+                            fact: "stale-remains".into(),
+                            detail: format!("{} stale path(s) of {} remain after the restart timer expired and no LLGR timer is armed for {}", left, FNAME[f], FNAME[f]),
+                        });
+                    }
+                }
+            }
+            Ev::LlgrFired { fam } => {
+                label = "llgr-timer".into();
+                st.add("I4:llgr-timer:judged");
+                self.judged_after_retention = true;
+                let left = post.paths.iter().filter(|p| p.fam == *fam && self.stale_like(p)).count();
+                if left > 0 && self.live.is_none() {
+                    skip_i1 |= 1 << fam;
+                    out.push(Finding {
+                        clause: "I4",
+                        event: label.clone(),
+                        fact: "stale-remains".into(),
+                        detail: format!("{} stale path(s) of {} remain after its LLGR timer expired", left, FNAME[*fam]),
+                    });
+                }
+            }
+            Ev::ForcedDownIdle => {
+                label = "force-down".into();
+                if post.llgr_timers != 0 {
+                    st.add("unjudged:force-down-starts-llgr-period");
+                }
+            }
+        }
+
+        // I1: stale paths exist => a timer is armed or an EOR is awaited
+        for f in 0..2 {
+            if has(skip_i1, f) {
+                continue;
+            }
+            let stale: Vec<&PathObs> = post.paths.iter().filter(|p| p.fam == f && self.stale_like(p)).collect();
+            if stale.is_empty() {
+                continue;
+            }
+            st.add("I1:judged");
+            let eor_awaited = self.live.as_ref().is_some_and(|l| has(l.gr, f) && !has(l.eor_seen, f));
+            if post.gr_timer {
+                st.add("I1:by-restart-timer");
+            } else if has(post.llgr_timers, f) {
+                st.add("I1:by-llgr-timer");
+            } else if eor_awaited {
+                st.add("I1:by-awaited-eor");
+            } else {
+                let flagged = stale.iter().any(|p| p.stale || p.llgr_stale);
+                out.push(Finding {
+                    clause: "I1",
+                    event: label.clone(),
+                    fact: if flagged { "stale-without-timer-or-eor".into() } else { "old-session-path-without-timer-or-eor".into() },
+                    detail: format!(
+                        "{} path(s) of {} from a previous session exist while no restart timer and no {} LLGR timer is armed and no End-of-RIB for {} is awaited ({})",
+                        stale.len(),
+                        FNAME[f],
+                        FNAME[f],
+                        FNAME[f],
+                        if self.live.is_some() { "session established" } else { "peer down" }
+                    ),
+                });
+            }
+        }
+
+        // I5: paths announced on the live session are never removed by a purge
+        if check_i5 && let Some(l) = &self.live {
+            for ((f, pfx), (tag, kind)) in &l.announced {
+                st.add("I5:judged");
+                if !post.paths.iter().any(|p| p.fam == *f && p.pfx == *pfx && p.tag == *tag) {
+                    out.push(Finding {
+                        clause: "I5",
+                        event: label.clone(),
+                        fact: if *kind == AttrKind::LlgrStaleComm { "reannounced-path-with-llgr-stale-community-lost".into() } else { "reannounced-path-lost".into() },
+                        detail: format!("path {}/{} tag {} announced on the live session is gone", FNAME[*f], pfx, tag),
+                    });
+                    break;
+                }
+            }
+        }
+
+        // I7: no NO_LLGR route while the LLGR period runs
+        for f in 0..2 {
+            let llgr_running = self.live.is_none() && has(post.llgr_timers, f) && !post.gr_timer;
+            if llgr_running {
+                st.add("I7:judged");
+            }
+            let bad = post
+                .paths
+                .iter()
+                .filter(|p| p.fam == f && p.no_llgr && self.is_old(p) && (llgr_running || p.llgr_stale))
+                .count();
+            if bad > 0 {
+                out.push(Finding {
+                    clause: "I7",
+                    event: label.clone(),
+                    fact: "no-llgr-route-kept".into(),
+                    detail: format!("{} path(s) of {} carrying NO_LLGR are kept in the LLGR period", bad, FNAME[f]),
+                });
+            }
+        }
+        if pre.paths.iter().any(|p| p.no_llgr) && !post.paths.iter().any(|p| p.no_llgr) && post.llgr_timers != 0 && pre.llgr_timers == 0 {
+            st.add("I7:no-llgr-route-dropped-at-llgr-start");
+        }
+
+        if !post.restarting && self.live.is_none() && (post.gr_timer || post.llgr_timers != 0) {
+            st.add("unjudged:timer-armed-but-not-restarting");
+        }
+        if post.restarting && post.paths.iter().all(|p| !self.stale_like(p)) && !post.gr_timer && post.llgr_timers == 0 {
+            st.add("unjudged:restarting-with-nothing-pending");
+        }
+        if post.paths.iter().any(|p| p.stale) {
+            st.add("obs:stale-paths-seen");
+        }
+        if post.paths.iter().any(|p| p.llgr_stale) {
+            st.add("obs:llgr-stale-paths-seen");
+        }
+        out
+    }
+}
+
+// ------------------------------------------------------------------ shared builders
+
+fn peer_v4() -> IpAddr {
+    IpAddr::V4(Ipv4Addr::new(127, 0, 0, 1))
+}
+
+fn nlri(fam: usize, pfx: u8) -> packet::Nlri {
+    if fam == 0 {
+        packet::Nlri::V4(bgp::Ipv4Net { addr: Ipv4Addr::new(10, pfx, 0, 0), mask: 16 })
+    } else {
+        packet::Nlri::V6(bgp::Ipv6Net { addr: Ipv6Addr::new(0x2001, 0xdb8, pfx as u16, 0, 0, 0, 0, 0), mask: 48 })
+    }
+}
+
+fn nexthop(fam: usize) -> bgp::Nexthop {
+    if fam == 0 {
+        bgp::Nexthop::V4(Ipv4Addr::new(192, 0, 2, 77))
+    } else {
+        bgp::Nexthop::V6(Ipv6Addr::new(0x2001, 0xdb8, 0xffff, 0, 0, 0, 0, 0x77))
+    }
+}
+
+fn mk_attrs(tag: u32, kind: AttrKind) -> Arc<Vec<packet::Attribute>> {
+    let mut v = vec![
+        packet::Attribute::new_with_value(packet::Attribute::ORIGIN, 0).unwrap(),
+        {
+            let mut b = vec![2u8, 1u8];
+            b.extend_from_slice(&REMOTE_ASN.to_be_bytes());
+            packet::Attribute::new_with_bin(packet::Attribute::AS_PATH, b).unwrap()
+        },
+        packet::Attribute::new_with_value(packet::Attribute::MULTI_EXIT_DESC, tag).unwrap(),
+    ];
+    let comm = match kind {
+        AttrKind::Plain => None,
+        AttrKind::NoLlgr => Some(0xffff_0007u32),
+        AttrKind::LlgrStaleComm => Some(0xffff_0006u32),
+    };
+    if let Some(c) = comm {
+        let mut b = 0xfde8_0001u32.to_be_bytes().to_vec();
+        b.extend_from_slice(&c.to_be_bytes());
+        v.push(packet::Attribute::new_with_bin(packet::Attribute::COMMUNITY, b).unwrap());
+    }
+    Arc::new(v)
+}
+
+fn spec_caps(spec: &CapSpec) -> Vec<packet::Capability> {
+    let mut v = Vec::new();
+    for f in fset_vec(spec.mp) {
+        v.push(packet::Capability::MultiProtocol(f));
+    }
+    v.push(packet::Capability::FourOctetAsNumber(REMOTE_ASN));
+    if let Some((fams, nbit, fbits)) = spec.gr {
+        v.push(packet::Capability::GracefulRestart {
+            flags: if nbit { 0x4 } else { 0 },
+            restart_time: RESTART_TIME,
+            families: (0..2).filter(|i| has(fams, *i)).map(|i| (FAMS[i], if has(fbits, i) { 0x80 } else { 0 })).collect(),
+        });
+    }
+    if spec.llgr != 0 {
+        v.push(packet::Capability::LongLivedGracefulRestart(
+            (0..2).filter(|i| has(spec.llgr, *i)).map(|i| (FAMS[i], 0x80u8, LLGR_TIME)).collect(),
+        ));
+    }
+    v
+}
+
+fn local_gr_cfg(cfg: &LocalCfg) -> (Option<GrPeerConfig>, Option<LlgrPeerConfig>) {
+    let gr = (cfg.gr != 0).then(|| GrPeerConfig { restart_time: RESTART_TIME, notification_enabled: cfg.nbit, families: fset_vec(cfg.gr) });
+    let llgr = (cfg.llgr != 0).then(|| LlgrPeerConfig { families: fset_vec(cfg.llgr).into_iter().map(|f| (f, LLGR_TIME)).collect() });
+    (gr, llgr)
+}
+
+fn local_families() -> FnvHashMap<Family, u8> {
+    let mut m = FnvHashMap::default();
+    m.insert(Family::IPV4, 0u8);
+    m.insert(Family::IPV6, 0u8);
+    m
+}
+
+fn make_global() -> GlobalHandle {
+    let (tx, _rx) = mpsc::unbounded_channel();
+    let (bfd_tx, _bfd_rx) = mpsc::unbounded_channel();
+    let mut g = Global::new(tx, bfd_tx);
+    g.asn = LOCAL_ASN;
+    g.router_id = Ipv4Addr::new(1, 0, 0, 1);
+    Arc::new(tokio::sync::RwLock::new(g))
+}
+
+fn reason_of(how: DropHow) -> crate::fsm::SessionDownReason {
+    use crate::fsm::SessionDownReason as R;
+    match how {
+        DropHow::TcpRst | DropHow::TcpFin => R::IoError,
+        DropHow::Notif(c, s) => R::RemoteNotification(bgp::Message::Notification(packet::Notification::from_notification(c, s, vec![]))),
+        DropHow::Garbage => R::LocalNotification(bgp::Message::Notification(packet::Notification::BadMessageType { data: vec![9] })),
+        DropHow::MaxPrefix => R::LocalNotification(bgp::Message::Notification(packet::Notification::CeaseMaxPrefixReached)),
+        DropHow::ApiShutdown | DropHow::ApiReset | DropHow::ApiSilent => R::AdminShutdown,
+        DropHow::HoldTimer => R::HoldTimerExpired,
+    }
+}
+
+/// One step of a history as executed: None = the op was not applicable in the current state.
+type StepResult = Result<Option<Ev>, HErr>;
+
+// ------------------------------------------------------------------ L1 executor
+
+struct L1Live {
+    sess: PeerSession,
+    fams: FSet,
+    epoch: u32,
+    seq: u32,
+}
+
+struct L1World {
+    global: GlobalHandle,
+    tables: TableHandle,
+    ctx: Arc<std::sync::Mutex<PeerContext>>,
+    addr: IpAddr,
+    local_cap: Vec<packet::Capability>,
+    live: Option<L1Live>,
+    epochs: u32,
+    ts: u32,
+}
+
+impl L1World {
+    fn new(cfg: &LocalCfg) -> L1World {
+        let addr = IpAddr::V4(Ipv4Addr::new(192, 0, 2, 10));
+        let (gr, llgr) = local_gr_cfg(cfg);
+        let local_cap = PeerParams::build_local_cap(addr, LOCAL_ASN, &local_families(), gr.as_ref(), llgr.as_ref());
+        let fsm = crate::fsm::PeerFsm::new(u32::from(Ipv4Addr::new(1, 0, 0, 1)), LOCAL_ASN, local_cap.clone(), 90, 0, FnvHashMap::default());
+        let ctx = Arc::new(std::sync::Mutex::new(PeerContext {
+            conn_arbiter: Arc::new(std::sync::Mutex::new(ConnArbiter::new(fsm))),
+            active_connect_cancel_tx: None,
+            active_connect_join_handle: None,
+            gr_state: crate::gr::GrState::new(),
+            gr_restart_timer: None,
+            llgr_family_timers: FnvHashMap::default(),
+            rtc_state: crate::rtc::RtcState::new(),
+            rtc_eor_timer: None,
+        }));
+        L1World {
+            global: make_global(),
+            tables: Arc::new(TableManager::new(cfg.shards)),
+            ctx,
+            addr,
+            local_cap,
+            live: None,
+            epochs: 0,
+            ts: 1,
+        }
+    }
+
+    fn base(&self) -> usize {
+        1 + self.live.is_some() as usize
+    }
+
+    fn observe(&self) -> Obs {
+        observe(&self.tables, &self.ctx, self.addr)
+    }
+
+    async fn quiet(&self) -> Result<(), HErr> {
+        wait_quiet(&self.ctx, self.base()).await
+    }
+
+    async fn cleanup(&mut self) {
+        self.live = None;
+        {
+            let mut c = self.ctx.lock().unwrap();
+            c.cancel_gr_timer();
+            c.cancel_llgr_timers();
+            c.cancel_rtc_timer();
+        }
+        let _ = wait_quiet(&self.ctx, 1).await;
+    }
+
+    async fn apply(&mut self, op: &Op) -> StepResult {
+        self.ts += 1;
+        match op {
+            Op::Connect { spec, outcome } => {
+                if self.live.is_some() || spec.mp == 0 {
+                    return Ok(None);
+                }
+                let mut sess = PeerSession::new_for_test(self.addr, self.ctx.clone(), self.tables.clone());
+                sess.local_cap = self.local_cap.clone();
+                if *outcome != ConnOutcome::Full {
+                    // a session that never reached Established: no sources, nothing negotiated;
+                    // session_loop's tail makes no table call and run() calls apply_disconnect
+                    let info = DisconnectInfo {
+                        role: sess.role,
+                        remote_addr: self.addr,
+                        export_map: ExportMap::default(),
+                        negotiated_gr: None,
+                        negotiated_llgr: None,
+                    };
+                    drop(sess);
+                    apply_disconnect(&self.ctx, self.addr, &self.tables, info).await;
+                    return Ok(Some(Ev::ReconnectFail { after_open: *outcome == ConnOutcome::DieAfterOpen }));
+                }
+                // what apply_outputs does for Output::SessionNegotiated / SessionEstablished
+                let remote_caps = spec_caps(spec);
+                sess.codec = bgp::PeerCodec::negotiate(&sess.local_cap, &remote_caps);
+                sess.negotiated_gr = sess.negotiate_gr(&remote_caps);
+                sess.negotiated_llgr = sess.negotiate_llgr(&remote_caps);
+                let effects = vec![GlobalEffect::GrSessionEstablished { negotiated_gr: sess.negotiated_gr.clone() }];
+                // on_established: one Source per session family, register_peer
+                let fams: Vec<Family> = sess.codec.families_iter().collect();
+                let mut fset = 0;
+                for f in &fams {
+                    if let Some(i) = fidx(*f) {
+                        fset |= 1 << i;
+                    }
+                    sess.source.insert(
+                        *f,
+                        Arc::new(table::Source::new(self.addr, IpAddr::V4(Ipv4Addr::new(192, 0, 2, 1)), REMOTE_ASN, LOCAL_ASN, Ipv4Addr::new(10, 0, 0, 1), PeerRole::Ebgp)),
+                    );
+                }
+                let rx = self.tables.register_peer(self.addr, FnvHashSet::default(), |_| {});
+                sess.peer_event_rx = Some(UnboundedReceiverStream::new(rx));
+                sess.process_effects(effects, &self.global).await;
+                self.epochs += 1;
+                self.live = Some(L1Live { sess, fams: fset, epoch: self.epochs, seq: 0 });
+                Ok(Some(Ev::Established { spec: *spec }))
+            }
+            Op::Announce { fam, pfx, kind } => {
+                let ts = self.ts;
+                let Some(l) = self.live.as_mut() else { return Ok(None) };
+                if !has(l.fams, *fam) {
+                    return Ok(None);
+                }
+                l.seq += 1;
+                let tag = l.epoch * 1000 + l.seq;
+                // rx_update
+                let source = l.sess.source[&FAMS[*fam]].clone();
+                self.tables.insert_route(source, FAMS[*fam], packet::PathNlri::new(nlri(*fam, *pfx)), Some(nexthop(*fam)), mk_attrs(tag, *kind), None, ts);
+                Ok(Some(Ev::Announced { fam: *fam, pfx: *pfx, tag, kind: *kind }))
+            }
+            Op::Withdraw { fam, pfx } => {
+                let ts = self.ts;
+                let Some(l) = self.live.as_mut() else { return Ok(None) };
+                if !has(l.fams, *fam) {
+                    return Ok(None);
+                }
+                let source = l.sess.source[&FAMS[*fam]].clone();
+                self.tables.remove_route(source, FAMS[*fam], packet::PathNlri::new(nlri(*fam, *pfx)), None, ts);
+                Ok(Some(Ev::Withdrawn { fam: *fam, pfx: *pfx }))
+            }
+            Op::Eor { fam } => {
+                let Some(l) = self.live.as_mut() else { return Ok(None) };
+                if !has(l.fams, *fam) {
+                    return Ok(None);
+                }
+                // rx_msg, End-of-RIB arm
+                let family = FAMS[*fam];
+                if let Some(source) = l.sess.source.get(&family) {
+                    self.tables.notify_eor(source.clone(), family);
+                }
+                if l.sess.negotiated_gr.is_some() {
+                    l.sess.process_effects(vec![GlobalEffect::GrEorReceived { family }], &self.global).await;
+                }
+                Ok(Some(Ev::Eor { fam: *fam }))
+            }
+            Op::Drop { how } => {
+                if self.live.is_none() || *how == DropHow::MaxPrefix {
+                    return Ok(None);
+                }
+                if matches!(how, DropHow::ApiShutdown | DropHow::ApiReset | DropHow::ApiSilent) {
+                    // the API call: fires pending timers and signals the session task
+                    self.ctx.lock().unwrap().force_down(CloseReason::AdminShutdown, false);
+                }
+                let L1Live { mut sess, .. } = self.live.take().unwrap();
+                let shutdown_reason = Some(reason_of(*how));
+                // ---- tail of session_loop, same calls in the same order
+                if !sess.source.is_empty() {
+                    let drop_families = families_to_drop_on_disconnect(sess.source.keys(), sess.negotiated_gr.as_ref(), sess.negotiated_llgr.as_ref());
+                    let stale_families: Vec<Family> = sess.negotiated_gr.as_ref().map(|g| g.families.clone()).unwrap_or_default();
+                    let any_source = sess.source.values().next().unwrap().clone();
+                    let bmp_reason = crate::bmp::session_down_to_bmp(shutdown_reason.clone());
+                    sess.peer_event_rx = None;
+                    self.tables.unregister_peer(self.addr, &drop_families, &stale_families);
+                    self.tables.peer_down(PeerDownData {
+                        peer_addr: any_source.remote_addr,
+                        peer_asn: any_source.remote_asn,
+                        peer_id: any_source.router_id,
+                        uptime: 0,
+                        reason: bmp_reason,
+                    });
+                }
+                let mut info = DisconnectInfo {
+                    role: sess.role,
+                    remote_addr: self.addr,
+                    export_map: std::mem::take(&mut sess.export_map),
+                    negotiated_gr: None,
+                    negotiated_llgr: None,
+                };
+                info.negotiated_gr = sess.negotiated_gr.take().and_then(|gr| gr_on_disconnect(&shutdown_reason, gr));
+                if info.negotiated_gr.is_some() || matches!(shutdown_reason, None | Some(crate::fsm::SessionDownReason::IoError)) {
+                    info.negotiated_llgr = sess.negotiated_llgr.take();
+                }
+                drop(sess);
+                // ---- PeerSession::run
+                apply_disconnect(&self.ctx, self.addr, &self.tables, info).await;
+                Ok(Some(Ev::Dropped { how: *how }))
+            }
+            Op::FireRestart => fire_restart(&self.ctx),
+            Op::FireLlgr { fam } => fire_llgr(&self.ctx, *fam),
+            Op::ForceDownIdle => {
+                if self.live.is_some() {
+                    return Ok(None);
+                }
+                self.ctx.lock().unwrap().force_down(CloseReason::AdminShutdown, false);
+                Ok(Some(Ev::ForcedDownIdle))
+            }
+        }
+    }
+}
+
+fn fire_restart(ctx: &Arc<std::sync::Mutex<PeerContext>>) -> StepResult {
+    let mut c = ctx.lock().unwrap();
+    if !c.gr_restart_timer.as_ref().is_some_and(|t| !t.is_closed()) {
+        return Ok(None);
+    }
+    c.fire_gr_timer();
+    Ok(Some(Ev::RestartFired))
+}
+
+fn fire_llgr(ctx: &Arc<std::sync::Mutex<PeerContext>>, fam: usize) -> StepResult {
+    let mut c = ctx.lock().unwrap();
+    if !c.llgr_family_timers.get(&FAMS[fam]).is_some_and(|t| !t.is_closed()) {
+        return Ok(None);
+    }
+    // fire exactly one family, the way fire_llgr_timers does for all of them
+    if let Some(tx) = c.llgr_family_timers.remove(&FAMS[fam]) {
+        let _ = tx.send(());
+    }
+    Ok(Some(Ev::LlgrFired { fam }))
+}
+
+// ------------------------------------------------------------------ L2 executor (real sessions over loopback TCP)
+
+struct L2Live {
+    client: TcpStream,
+    codec: bgp::PeerCodec,
+    rxbuf: BytesMut,
+    join: tokio::task::JoinHandle<()>,
+    eors: [u32; 2],
+    keepalives: u32,
+    opens: u32,
+    fams: FSet,
+    epoch: u32,
+    seq: u32,
+}
+
+struct L2World<'a> {
+    cfg: LocalCfg,
+    global: GlobalHandle,
+    tables: TableHandle,
+    ctx: Arc<std::sync::Mutex<PeerContext>>,
+    addr: IpAddr,
+    listener: &'a TcpListener,
+    active_tx: mpsc::UnboundedSender<TcpStream>,
+    _active_rx: mpsc::UnboundedReceiver<TcpStream>,
+    live: Option<L2Live>,
+    epochs: u32,
+    rng: Rng,
+}
+
+const IO_WAIT: std::time::Duration = std::time::Duration::from_secs(15);
+
+impl L2Live {
+    async fn send(&mut self, msg: &bgp::Message) -> Result<(), HErr> {
+        let mut b = BytesMut::with_capacity(4096);
+        self.codec.encode_to(msg, &mut b).map_err(|e| HErr::Harness(format!("encode: {:?}", e)))?;
+        self.client.write_all(&b).await.map_err(|e| HErr::Io(format!("write: {}", e)))
+    }
+
+    fn fold(&mut self, m: bgp::ParsedMessage) {
+        match m {
+            bgp::ParsedMessage::Open(_) => self.opens += 1,
+            bgp::ParsedMessage::Keepalive => self.keepalives += 1,
+            bgp::ParsedMessage::Update(bgp::ParsedUpdate::EndOfRib(f)) => {
+                if let Some(i) = fidx(f) {
+                    self.eors[i] += 1;
+                }
+            }
+            _ => {}
+        }
+    }
+
+    /// read from the socket until `done(self)`; EOF / reset is an error
+    async fn read_until<F: Fn(&L2Live) -> bool>(&mut self, done: F, what: &str) -> Result<(), HErr> {
+        let deadline = std::time::Instant::now() + IO_WAIT;
+        loop {
+            loop {
+                match self.codec.try_parse(&mut self.rxbuf) {
+                    Ok(Some(m)) => self.fold(m),
+                    Ok(None) => break,
+                    Err(n) => return Err(HErr::Harness(format!("frame from the daemon rejected by the peer-side codec: {:?}", n))),
+                }
+            }
+            if done(self) {
+                return Ok(());
+            }
+            if std::time::Instant::now() > deadline {
+                return Err(HErr::Watchdog(format!("waiting for {}", what)));
+            }
+            match tokio::time::timeout(IO_WAIT, self.client.readable()).await {
+                Ok(Ok(())) => {}
+                Ok(Err(e)) => return Err(HErr::Io(format!("{}: {}", what, e))),
+                Err(_) => return Err(HErr::Watchdog(format!("waiting for {}", what))),
+            }
+            match self.client.try_read_buf(&mut self.rxbuf) {
+                Ok(0) => return Err(HErr::Io(format!("EOF while waiting for {}", what))),
+                Ok(_) => {}
+                Err(ref e) if e.kind() == std::io::ErrorKind::WouldBlock => {}
+                Err(e) => return Err(HErr::Io(format!("{}: {}", what, e))),
+            }
+        }
+    }
+
+    /// Everything sent before this call has been processed by the session task
+    /// when it returns: ROUTE-REFRESH is answered with an End-of-RIB marker, and
+    /// the session task handles messages strictly in order.
+    async fn barrier(&mut self) -> Result<(), HErr> {
+        let i = (0..2).find(|i| has(self.fams, *i)).unwrap();
+        let n0 = self.eors[i];
+        self.send(&bgp::Message::RouteRefresh { family: FAMS[i] }).await?;
+        self.read_until(move |l| l.eors[i] > n0, "End-of-RIB answering the ROUTE-REFRESH barrier").await
+    }
+}
+
+async fn join_session(join: tokio::task::JoinHandle<()>) -> Result<(), HErr> {
+    match tokio::time::timeout(IO_WAIT, join).await {
+        Ok(Ok(())) => Ok(()),
+        Ok(Err(e)) => {
+            if e.is_panic() {
+                std::panic::resume_unwind(e.into_panic());
+            }
+            Err(HErr::Harness(format!("session task: {}", e)))
+        }
+        Err(_) => Err(HErr::Watchdog("session task did not finish after the disconnect".into())),
+    }
+}
+
+impl<'a> L2World<'a> {
+    async fn new(cfg: &LocalCfg, listener: &'a TcpListener, seed: u64) -> Result<L2World<'a>, HErr> {
+        let global = make_global();
+        let tables: TableHandle = Arc::new(TableManager::new(cfg.shards));
+        let addr = peer_v4();
+        let (gr, llgr) = local_gr_cfg(cfg);
+        let mut prefix_limits = FnvHashMap::default();
+        if cfg.prefix_limit {
+            prefix_limits.insert(Family::IPV4, PREFIX_LIMIT);
+        }
+        let params = PeerParams {
+            remote_addr: addr,
+            remote_port: Global::BGP_PORT,
+            expected_remote_asn: REMOTE_ASN,
+            local_asn: 0,
+            passive: true,
+            rs_client: false,
+            route_reflector: RouteReflectorConfig::default(),
+            delete_on_disconnected: false,
+            admin_down: false,
+            state: SessionState::Idle,
+            holdtime: 90,
+            connect_retry_time: PeerParams::DEFAULT_CONNECT_RETRY_TIME,
+            multihop_ttl: None,
+            ttl_security: None,
+            password: None,
+            families: local_families(),
+            send_max: FnvHashMap::default(),
+            prefix_limits,
+            graceful_restart: gr,
+            llgr,
+            bfd_config: None,
+            neighbor_interface: None,
+            bind_interface: None,
+            export_policy: None,
+        };
+        let ctx = {
+            let mut g = global.write().await;
+            g.add_peer(params, None).map_err(|_| HErr::Harness("add_peer failed".into()))?;
+            g.peers.get(&addr).unwrap().context.clone()
+        };
+        let (active_tx, active_rx) = mpsc::unbounded_channel();
+        Ok(L2World {
+            cfg: cfg.clone(),
+            global,
+            tables,
+            ctx,
+            addr,
+            listener,
+            active_tx,
+            _active_rx: active_rx,
+            live: None,
+            epochs: 0,
+            rng: Rng::new(seed),
+        })
+    }
+
+    fn base(&self) -> usize {
+        // this struct + Peer.context in Global + the session task
+        2 + self.live.is_some() as usize
+    }
+
+    fn observe(&self) -> Obs {
+        observe(&self.tables, &self.ctx, self.addr)
+    }
+
+    async fn quiet(&self) -> Result<(), HErr> {
+        wait_quiet(&self.ctx, self.base()).await
+    }
+
+    async fn cleanup(&mut self) {
+        if let Some(l) = self.live.take() {
+            drop(l.client);
+            let _ = tokio::time::timeout(IO_WAIT, l.join).await;
+        }
+        {
+            let mut c = self.ctx.lock().unwrap();
+            c.cancel_gr_timer();
+            c.cancel_llgr_timers();
+            c.cancel_rtc_timer();
+        }
+        let _ = wait_quiet(&self.ctx, 2).await;
+    }
+
+    async fn connect(&mut self, spec: &CapSpec) -> Result<L2Live, HErr> {
+        let la = self.listener.local_addr().map_err(|e| HErr::Io(e.to_string()))?;
+        let client = TcpStream::connect(la).await.map_err(|e| HErr::Io(format!("connect: {}", e)))?;
+        let (server, _) = self.listener.accept().await.map_err(|e| HErr::Io(format!("accept: {}", e)))?;
+        // close with RST: no TIME_WAIT sockets pile up over thousands of sessions
+        let _ = client.set_linger(Some(std::time::Duration::ZERO));
+        let _ = server.set_linger(Some(std::time::Duration::ZERO));
+        let _ = client.set_nodelay(true);
+        let sess = accept_connection(&self.global, &self.tables, server, crate::fsm::Role::Passive)
+            .await
+            .ok_or_else(|| HErr::Harness("accept_connection refused the connection".into()))?;
+        let local_cap = sess.local_cap.clone();
+        // Global::serve: tokio::spawn(h.run(global.clone(), active_tx.clone()))
+        let join = tokio::spawn(sess.run(self.global.clone(), self.active_tx.clone()));
+        let my_caps = spec_caps(spec);
+        Ok(L2Live {
+            client,
+            codec: bgp::PeerCodec::negotiate(&my_caps, &local_cap),
+            rxbuf: BytesMut::with_capacity(1 << 16),
+            join,
+            eors: [0, 0],
+            keepalives: 0,
+            opens: 0,
+            fams: spec.mp & 0b11,
+            epoch: 0,
+            seq: 0,
+        })
+    }
+
+    fn open_msg(spec: &CapSpec) -> bgp::Message {
+        bgp::Message::Open(bgp::Open {
+            as_number: REMOTE_ASN,
+            holdtime: HoldTime::new(90).unwrap(),
+            router_id: u32::from(Ipv4Addr::new(10, 0, 0, 1)),
+            capability: spec_caps(spec),
+        })
+    }
+
+    async fn apply(&mut self, op: &Op) -> StepResult {
+        match op {
+            Op::Connect { spec, outcome } => {
+                if self.live.is_some() || spec.mp == 0 {
+                    return Ok(None);
+                }
+                let mut l = self.connect(spec).await?;
+                match outcome {
+                    ConnOutcome::DieBeforeOpen => {
+                        if self.rng.bool() {
+                            l.read_until(|l| l.opens > 0, "the daemon's OPEN").await?;
+                        }
+                        if self.rng.bool() {
+                            let _ = l.client.shutdown().await;
+                        }
+                        let L2Live { client, join, .. } = l;
+                        drop(client);
+                        join_session(join).await?;
+                        Ok(Some(Ev::ReconnectFail { after_open: false }))
+                    }
+                    ConnOutcome::DieAfterOpen => {
+                        l.send(&Self::open_msg(spec)).await?;
+                        // the daemon answers our OPEN with KEEPALIVE: it is in OpenConfirm now
+                        l.read_until(|l| l.opens > 0 && l.keepalives > 0, "OPEN + KEEPALIVE from the daemon").await?;
+                        if self.rng.bool() {
+                            let _ = l.client.shutdown().await;
+                        }
+                        let L2Live { client, join, .. } = l;
+                        drop(client);
+                        join_session(join).await?;
+                        Ok(Some(Ev::ReconnectFail { after_open: true }))
+                    }
+                    ConnOutcome::Full => {
+                        l.send(&Self::open_msg(spec)).await?;
+                        l.send(&bgp::Message::Keepalive).await?;
+                        // initial End-of-RIB per session family, then a barrier so that
+                        // process_effects(GrSessionEstablished) has run as well
+                        let fams = l.fams;
+                        l.read_until(move |l| (0..2).all(|i| !has(fams, i) || l.eors[i] > 0), "initial End-of-RIB markers").await?;
+                        l.barrier().await?;
+                        self.epochs += 1;
+                        l.epoch = self.epochs;
+                        self.live = Some(l);
+                        Ok(Some(Ev::Established { spec: *spec }))
+                    }
+                }
+            }
+            Op::Announce { fam, pfx, kind } => {
+                let Some(l) = self.live.as_mut() else { return Ok(None) };
+                if !has(l.fams, *fam) {
+                    return Ok(None);
+                }
+                l.seq += 1;
+                let tag = l.epoch * 1000 + l.seq;
+                let msg = bgp::Message::Update(bgp::Update::Reach {
+                    family: FAMS[*fam],
+                    entries: vec![packet::PathNlri::new(nlri(*fam, *pfx))],
+                    nexthop: Some(nexthop(*fam)),
+                    attr: mk_attrs(tag, *kind),
+                });
+                l.send(&msg).await?;
+                l.barrier().await?;
+                Ok(Some(Ev::Announced { fam: *fam, pfx: *pfx, tag, kind: *kind }))
+            }
+            Op::Withdraw { fam, pfx } => {
+                let Some(l) = self.live.as_mut() else { return Ok(None) };
+                if !has(l.fams, *fam) {
+                    return Ok(None);
+                }
+                let msg = bgp::Message::Update(bgp::Update::Unreach { family: FAMS[*fam], entries: vec![packet::PathNlri::new(nlri(*fam, *pfx))] });
+                l.send(&msg).await?;
+                l.barrier().await?;
+                Ok(Some(Ev::Withdrawn { fam: *fam, pfx: *pfx }))
+            }
+            Op::Eor { fam } => {
+                let Some(l) = self.live.as_mut() else { return Ok(None) };
+                if !has(l.fams, *fam) {
+                    return Ok(None);
+                }
+                l.send(&bgp::Message::eor(FAMS[*fam])).await?;
+                l.barrier().await?;
+                Ok(Some(Ev::Eor { fam: *fam }))
+            }
+            Op::Drop { how } => {
+                if self.live.is_none() {
+                    return Ok(None);
+                }
+                if *how == DropHow::HoldTimer {
+                    return Ok(None);
+                }
+                if *how == DropHow::MaxPrefix && !(self.cfg.prefix_limit && has(self.live.as_ref().unwrap().fams, 0)) {
+                    return Ok(None);
+                }
+                let mut l = self.live.take().unwrap();
+                match how {
+                    DropHow::TcpRst => {}
+                    DropHow::TcpFin => {
+                        let _ = l.client.shutdown().await;
+                    }
+                    DropHow::Notif(c, s) => {
+                        let n = packet::Notification::from_notification(*c, *s, vec![]);
+                        l.send(&bgp::Message::Notification(n)).await?;
+                        if self.rng.bool() {
+                            let _ = l.client.shutdown().await;
+                        } else {
+                            // let the daemon close first
+                            let _ = l.read_until(|_| false, "close").await;
+                        }
+                    }
+                    DropHow::Garbage => {
+                        // well-formed header, unknown message type 9
+                        let mut b = vec![0xffu8; 16];
+                        b.extend_from_slice(&[0, 19, 9]);
+                        l.client.write_all(&b).await.map_err(|e| HErr::Io(e.to_string()))?;
+                        let _ = l.read_until(|_| false, "close").await;
+                    }
+                    DropHow::MaxPrefix => {
+                        for k in 0..(PREFIX_LIMIT as u8 + 3) {
+                            l.seq += 1;
+                            let tag = l.epoch * 1000 + l.seq;
+                            let msg = bgp::Message::Update(bgp::Update::Reach {
+                                family: FAMS[0],
+                                entries: vec![packet::PathNlri::new(nlri(0, 100 + k))],
+                                nexthop: Some(nexthop(0)),
+                                attr: mk_attrs(tag, AttrKind::Plain),
+                            });
+                            if l.send(&msg).await.is_err() {
+                                break;
+                            }
+                        }
+                        let _ = l.read_until(|_| false, "close").await;
+                    }
+                    DropHow::ApiShutdown | DropHow::ApiReset | DropHow::ApiSilent => {
+                        let reason = match how {
+                            DropHow::ApiShutdown => CloseReason::AdminShutdown,
+                            DropHow::ApiReset => CloseReason::SendMessage(bgp::Message::Notification(packet::Notification::CeasePeerDeconfigured)),
+                            _ => CloseReason::Silent,
+                        };
+                        // what GrpcService::shutdown_peer / reset_peer and the BFD arm of Global::serve do
+                        let g = self.global.read().await;
+                        let peer = g.peers.get(&self.addr).ok_or_else(|| HErr::Harness("peer vanished".into()))?;
+                        peer.context.lock().unwrap().force_down(reason, false);
+                    }
+                    DropHow::HoldTimer => unreachable!(),
+                }
+                let L2Live { client, join, .. } = l;
+                let r = if matches!(how, DropHow::TcpRst | DropHow::TcpFin) {
+                    drop(client);
+                    join_session(join).await
+                } else {
+                    let r = join_session(join).await;
+                    drop(client);
+                    r
+                };
+                r?;
+                Ok(Some(Ev::Dropped { how: *how }))
+            }
+            Op::FireRestart => fire_restart(&self.ctx),
+            Op::FireLlgr { fam } => fire_llgr(&self.ctx, *fam),
+            Op::ForceDownIdle => {
+                if self.live.is_some() {
+                    return Ok(None);
+                }
+                let g = self.global.read().await;
+                let peer = g.peers.get(&self.addr).ok_or_else(|| HErr::Harness("peer vanished".into()))?;
+                peer.context.lock().unwrap().force_down(CloseReason::AdminShutdown, false);
+                Ok(Some(Ev::ForcedDownIdle))
+            }
+        }
+    }
+}
+
+// ------------------------------------------------------------------ running one history
+
+enum World<'a> {
+    L1(L1World),
+    L2(L2World<'a>),
+}
+
+impl<'a> World<'a> {
+    async fn apply(&mut self, op: &Op) -> StepResult {
+        match self {
+            World::L1(w) => w.apply(op).await,
+            World::L2(w) => w.apply(op).await,
+        }
+    }
+    fn observe(&self) -> Obs {
+        match self {
+            World::L1(w) => w.observe(),
+            World::L2(w) => w.observe(),
+        }
+    }
+    async fn quiet(&self) -> Result<(), HErr> {
+        match self {
+            World::L1(w) => w.quiet().await,
+            World::L2(w) => w.quiet().await,
+        }
+    }
+    async fn cleanup(&mut self) {
+        match self {
+            World::L1(w) => w.cleanup().await,
+            World::L2(w) => w.cleanup().await,
+        }
+    }
+}
+
+struct HistOut {
+    findings: Vec<Finding>,
+    fail_step: Option<usize>,
+    stats: Stats,
+    trace: Vec<String>,
+    applied: Vec<bool>,
+    herr: Option<HErr>,
+    judged: u64,
+    nontrivial: bool,
+}
+
+async fn run_history(layer: u8, cfg: &LocalCfg, ops: &[Op], listener: Option<&TcpListener>, seed: u64, want_trace: bool) -> HistOut {
+    let mut out = HistOut {
+        findings: vec![],
+        fail_step: None,
+        stats: Stats::default(),
+        trace: vec![],
+        applied: vec![false; ops.len()],
+        herr: None,
+        judged: 0,
+        nontrivial: false,
+    };
+    let mut world = if layer == 1 {
+        World::L1(L1World::new(cfg))
+    } else {
+        match L2World::new(cfg, listener.expect("listener"), seed).await {
+            Ok(w) => World::L2(w),
+            Err(e) => {
+                out.herr = Some(e);
+                return out;
+            }
+        }
+    };
+    let mut model = Model::new(cfg);
+    let mut pre = world.observe();
+    for (i, op) in ops.iter().enumerate() {
+        let ev = match world.apply(op).await {
+            Ok(Some(ev)) => ev,
+            Ok(None) => continue,
+            Err(e) => {
+                out.herr = Some(e);
+                break;
+            }
+        };
+        out.applied[i] = true;
+        if let Err(e) = world.quiet().await {
+            out.herr = Some(e);
+            break;
+        }
+        let post = world.observe();
+        if let Ev::Announced { fam, pfx, tag, .. } = &ev
+            && !post.paths.iter().any(|p| p.fam == *fam && p.pfx == *pfx && p.tag == *tag)
+        {
+            out.herr = Some(HErr::Harness(format!("announced path {}/{} tag {} is not in the Adj-RIB-In", FNAME[*fam], pfx, tag)));
+            break;
+        }
+        out.stats.add(&format!("op:{}", op.kind()));
+        let f = model.step(&ev, &pre, &post, &mut out.stats);
+        out.judged += 1;
+        if want_trace {
+            out.trace.push(format!("#{} {:?} => {}", i, op, post.render()));
+        }
+        if !f.is_empty() {
+            out.findings = f;
+            out.fail_step = Some(i);
+            break;
+        }
+        pre = post;
+    }
+    out.nontrivial = model.retained_stale && model.judged_after_retention;
+    world.cleanup().await;
+    out
+}
+
+// ------------------------------------------------------------------ generators
+
+fn gen_cfg(rng: &mut Rng, layer: u8) -> LocalCfg {
+    LocalCfg {
+        gr: *rng.pick(&[0b11, 0b11, 0b11, 0b11, 0b01, 0b01, 0b10, 0]),
+        nbit: rng.bool(),
+        llgr: *rng.pick(&[0, 0, 0, 0b11, 0b11, 0b01, 0b10]),
+        shards: *rng.pick(&[1usize, 2, 4]),
+        prefix_limit: layer == 2 && rng.chance(1, 6),
+    }
+}
+
+fn subset_nonempty(rng: &mut Rng, of: FSet) -> FSet {
+    let c: Vec<FSet> = [0b01u8, 0b10, 0b11].iter().copied().filter(|s| s & of == *s).collect();
+    if c.is_empty() { 0 } else { *rng.pick(&c) }
+}
+
+fn gen_spec(rng: &mut Rng, prev: Option<&CapSpec>) -> CapSpec {
+    if let Some(p) = prev
+        && rng.chance(2, 5)
+    {
+        return *p;
+    }
+    let mp = *rng.pick(&[0b11u8, 0b11, 0b11, 0b01, 0b10]);
+    let gr = if rng.chance(5, 6) {
+        let f = if rng.chance(2, 3) { mp } else { subset_nonempty(rng, mp) };
+        Some((f, rng.bool(), rng.below(4) as u8 & f))
+    } else {
+        None
+    };
+    let llgr = if rng.chance(1, 2) { if rng.chance(1, 2) { mp } else { subset_nonempty(rng, mp) } } else { 0 };
+    CapSpec { mp, gr, llgr }
+}
+
+fn gen_drop(rng: &mut Rng, layer: u8) -> DropHow {
+    let k = rng.below(100);
+    match k {
+        0..=17 => DropHow::TcpRst,
+        18..=26 => DropHow::TcpFin,
+        27..=36 => DropHow::Notif(6, 9),
+        37..=43 => DropHow::Notif(6, 2),
+        44..=49 => DropHow::Notif(6, 4),
+        50..=52 => DropHow::Notif(6, 6),
+        53..=58 => DropHow::Notif(3, 1),
+        59..=61 => DropHow::Notif(5, 0),
+        62..=63 => DropHow::Notif(1, 2),
+        64..=67 => DropHow::Notif(4, 0),
+        68..=74 => DropHow::Garbage,
+        75..=79 => if layer == 2 { DropHow::MaxPrefix } else { DropHow::HoldTimer },
+        80..=86 => DropHow::ApiShutdown,
+        87..=92 => DropHow::ApiReset,
+        93..=96 => DropHow::ApiSilent,
+        _ => if layer == 1 { DropHow::HoldTimer } else { DropHow::TcpRst },
+    }
+}
+
+fn gen_kind(rng: &mut Rng) -> AttrKind {
+    match rng.below(10) {
+        0..=5 => AttrKind::Plain,
+        6..=7 => AttrKind::NoLlgr,
+        _ => AttrKind::LlgrStaleComm,
+    }
+}
+
+fn gen_ops(rng: &mut Rng, layer: u8, len: usize) -> Vec<Op> {
+    let mut ops = Vec::new();
+    let first = gen_spec(rng, None);
+    let mut last_spec = first;
+    ops.push(Op::Connect { spec: first, outcome: ConnOutcome::Full });
+    for f in 0..2 {
+        for p in 0..rng.range(1, 3) as u8 {
+            ops.push(Op::Announce { fam: f, pfx: p, kind: gen_kind(rng) });
+        }
+    }
+    for f in 0..2 {
+        if rng.chance(3, 4) {
+            ops.push(Op::Eor { fam: f });
+        }
+    }
+    let mut live = true;
+    for _ in 0..len {
+        let k = rng.below(100);
+        let op = if live {
+            match k {
+                0..=29 => Op::Announce { fam: rng.usize(2), pfx: rng.below(3) as u8, kind: gen_kind(rng) },
+                30..=34 => Op::Withdraw { fam: rng.usize(2), pfx: rng.below(3) as u8 },
+                35..=59 => Op::Eor { fam: rng.usize(2) },
+                60..=94 => {
+                    live = false;
+                    Op::Drop { how: gen_drop(rng, layer) }
+                }
+                95..=97 => Op::FireRestart,
+                _ => Op::FireLlgr { fam: rng.usize(2) },
+            }
+        } else {
+            match k {
+                0..=39 => {
+                    live = true;
+                    let s = gen_spec(rng, Some(&last_spec));
+                    last_spec = s;
+                    Op::Connect { spec: s, outcome: ConnOutcome::Full }
+                }
+                40..=51 => Op::Connect { spec: gen_spec(rng, Some(&last_spec)), outcome: ConnOutcome::DieBeforeOpen },
+                52..=63 => Op::Connect { spec: gen_spec(rng, Some(&last_spec)), outcome: ConnOutcome::DieAfterOpen },
+                64..=78 => Op::FireRestart,
+                79..=93 => Op::FireLlgr { fam: rng.usize(2) },
+                _ => Op::ForceDownIdle,
+            }
+        };
+        ops.push(op);
+    }
+    ops
+}
+
+// ---- exhaustive L1 enumeration
+
+fn exh_configs() -> Vec<(&'static str, LocalCfg, CapSpec)> {
+    let c = |gr, nbit, llgr| LocalCfg { gr, nbit, llgr, shards: 2, prefix_limit: false };
+    vec![
+        ("gr-all", c(0b11, false, 0), CapSpec { mp: 0b11, gr: Some((0b11, false, 0)), llgr: 0 }),
+        ("gr-all+llgr-all+nbit", c(0b11, true, 0b11), CapSpec { mp: 0b11, gr: Some((0b11, true, 0b11)), llgr: 0b11 }),
+        ("gr-v4+llgr-all+nbit", c(0b01, true, 0b11), CapSpec { mp: 0b11, gr: Some((0b01, true, 0)), llgr: 0b11 }),
+        ("gr-all+llgr-v6", c(0b11, false, 0b11), CapSpec { mp: 0b11, gr: Some((0b11, false, 0)), llgr: 0b10 }),
+        ("llgr-only-v4", c(0, false, 0b01), CapSpec { mp: 0b11, gr: None, llgr: 0b01 }),
+        ("gr-v4", c(0b01, false, 0), CapSpec { mp: 0b11, gr: Some((0b01, false, 0)), llgr: 0 }),
+    ]
+}
+
+fn exh_prelude(spec: &CapSpec) -> Vec<Op> {
+    vec![
+        Op::Connect { spec: *spec, outcome: ConnOutcome::Full },
+        Op::Announce { fam: 0, pfx: 0, kind: AttrKind::Plain },
+        Op::Announce { fam: 0, pfx: 1, kind: AttrKind::NoLlgr },
+        Op::Announce { fam: 1, pfx: 0, kind: AttrKind::Plain },
+        Op::Announce { fam: 1, pfx: 1, kind: AttrKind::LlgrStaleComm },
+        Op::Eor { fam: 0 },
+        Op::Eor { fam: 1 },
+    ]
+}
+
+fn exh_alphabet(spec: &CapSpec) -> Vec<(&'static str, Vec<Op>)> {
+    let nbit = spec.gr.is_some_and(|g| g.1);
+    vec![
+        ("D-tcp", vec![Op::Drop { how: DropHow::TcpRst }]),
+        ("D-hard-reset", vec![Op::Drop { how: DropHow::Notif(6, 9) }]),
+        ("D-cease", vec![Op::Drop { how: DropHow::Notif(6, 4) }]),
+        ("D-update-error", vec![Op::Drop { how: DropHow::Notif(3, 1) }]),
+        ("D-admin", vec![Op::Drop { how: DropHow::ApiShutdown }]),
+        ("R-fail", vec![Op::Connect { spec: *spec, outcome: ConnOutcome::DieAfterOpen }]),
+        ("R-same", vec![Op::Connect { spec: *spec, outcome: ConnOutcome::Full }]),
+        ("R-gr-v4-only", vec![Op::Connect { spec: CapSpec { mp: 0b11, gr: Some((0b01, nbit, 0)), llgr: 0 }, outcome: ConnOutcome::Full }]),
+        ("R-no-gr", vec![Op::Connect { spec: CapSpec { mp: 0b11, gr: None, llgr: 0 }, outcome: ConnOutcome::Full }]),
+        (
+            "A",
+            vec![
+                Op::Announce { fam: 0, pfx: 0, kind: AttrKind::Plain },
+                Op::Announce { fam: 1, pfx: 0, kind: AttrKind::LlgrStaleComm },
+                Op::Announce { fam: 0, pfx: 2, kind: AttrKind::Plain },
+            ],
+        ),
+        ("E-v4", vec![Op::Eor { fam: 0 }]),
+        ("E-v6", vec![Op::Eor { fam: 1 }]),
+        ("T", vec![Op::FireRestart]),
+        ("L-v4", vec![Op::FireLlgr { fam: 0 }]),
+        ("L-v6", vec![Op::FireLlgr { fam: 1 }]),
+        ("F", vec![Op::ForceDownIdle]),
+    ]
+}
+
+// ------------------------------------------------------------------ driver
+
+struct Ctl<'a> {
+    rt: &'a tokio::runtime::Runtime,
+    listener: Option<&'a TcpListener>,
+    params: &'a Params,
+}
+
+fn exec(ctl: &Ctl, layer: u8, cfg: &LocalCfg, ops: &[Op], seed: u64, trace: bool) -> Result<HistOut, PanicInfo> {
+    guard(|| ctl.rt.block_on(run_history(layer, cfg, ops, ctl.listener, seed, trace)))
+}
+
+fn ops_json(ops: &[Op]) -> Json {
+    Json::strs(ops.iter().map(|o| format!("{:?}", o)))
+}
+
+/// Evaluate one history, fold what was observed into the report, shrink + report findings.
+/// Returns (any op of `tail` applied, violated).
+fn evaluate(ctl: &Ctl, rep: &mut Report, layer: u8, cfg: &LocalCfg, ops: &[Op], seed: u64, origin: &str, tail_from: usize) -> (bool, bool) {
+    let lname = if layer == 1 { "l1" } else { "l2" };
+    let out = match exec(ctl, layer, cfg, ops, seed, false) {
+        Ok(o) => o,
+        Err(p) => {
+            let sig = format!("C10/panic/{}:{}", p.location, panic_class(&p.message));
+            rep.violation(
+                &sig,
+                &format!("panic in the daemon while running a GR history: {}", p.message),
+                Json::obj(vec![("layer", Json::s(lname)), ("config", Json::s(format!("{:?}", cfg))), ("ops", ops_json(ops)), ("origin", Json::s(origin))]),
+            );
+            return (true, true);
+        }
+    };
+    let tail_applied = out.applied[tail_from.min(ops.len())..].iter().any(|a| *a);
+    if tail_from > 0 && !tail_applied && out.herr.is_none() {
+        // enumeration: the last letter was not applicable, the sequence equals a shorter one
+        return (false, false);
+    }
+    rep.count(&format!("{}:histories", lname));
+    rep.evals(out.judged);
+    for (k, v) in &out.stats.c {
+        rep.count_n(k, *v);
+    }
+    rep.count_n(&format!("{}:steps-judged", lname), out.judged);
+    if let Some(e) = &out.herr {
+        match e {
+            HErr::Panic(l, m) => rep.violation(&format!("C10/panic/{}:{}", l, panic_class(m)), m, ops_json(ops)),
+            other => {
+                rep.count(&format!("{}:harness-error", lname));
+                rep.inconclusive(&format!("{} harness error: {:?} (config {:?}, origin {})", lname, other, cfg, origin));
+            }
+        }
+        return (tail_applied, false);
+    }
+    if out.nontrivial {
+        rep.count(&format!("{}:nontrivial-histories", lname));
+        rep.nontrivial(fnv64(format!("{}{:?}{:?}", layer, cfg, ops).as_bytes()));
+    }
+    if out.findings.is_empty() {
+        if rep.want_sample() && out.nontrivial && layer == 2 {
+            if let Ok(t) = exec(ctl, layer, cfg, ops, seed, true) {
+                rep.sample(Json::obj(vec![
+                    ("layer", Json::s(lname)),
+                    ("config", Json::s(format!("{:?}", cfg))),
+                    ("steps", Json::strs(t.trace)),
+                ]));
+            }
+        }
+        return (tail_applied, false);
+    }
+    for f in &out.findings {
+        rep.count(&format!("alarm:{}", f.clause));
+    }
+    // one report per signature; shrink the first occurrence
+    let fresh: Vec<Finding> = out.findings.iter().filter(|f| !rep.has_violation(&f.sig())).cloned().collect();
+    for f in &out.findings {
+        if rep.has_violation(&f.sig()) {
+            rep.violation(&f.sig(), "", Json::Null);
+        }
+    }
+    for f in fresh {
+        let sig = f.sig();
+        if rep.has_violation(&sig) {
+            continue;
+        }
+        let end = out.fail_step.map(|s| s + 1).unwrap_or(ops.len());
+        let mut cur: Vec<Op> = ops[..end].to_vec();
+        let mut budget: i32 = if layer == 1 { 300 } else { 80 };
+        loop {
+            let before = cur.len();
+            let mut i = 0;
+            while i < cur.len() && budget > 0 {
+                let mut cand = cur.clone();
+                cand.remove(i);
+                budget -= 1;
+                let keep = match exec(ctl, layer, cfg, &cand, seed, false) {
+                    Ok(o) => o.herr.is_none() && o.findings.iter().any(|g| g.sig() == sig),
+                    Err(_) => false,
+                };
+                if keep {
+                    cur = cand;
+                } else {
+                    i += 1;
+                }
+            }
+            if cur.len() == before || budget <= 0 {
+                break;
+            }
+        }
+        let (trace, detail) = match exec(ctl, layer, cfg, &cur, seed, true) {
+            Ok(o) => {
+                let d = o.findings.iter().find(|g| g.sig() == sig).map(|g| g.detail.clone()).unwrap_or(f.detail.clone());
+                (o.trace, d)
+            }
+            Err(_) => (vec![], f.detail.clone()),
+        };
+        rep.violation(
+            &sig,
+            &detail,
+            Json::obj(vec![
+                ("layer", Json::s(if layer == 1 { "L1 (apply_disconnect / process_effects / timer tasks on new_for_test sessions)" } else { "L2 (accept_connection + PeerSession::run over loopback TCP)" })),
+                ("local_config", Json::s(format!("{:?}", cfg))),
+                ("minimal_ops", ops_json(&cur)),
+                ("steps_observed", Json::strs(trace)),
+                ("clause", Json::s(f.clause)),
+                ("observed", Json::s(detail.clone())),
+                ("original_len", Json::Int(ops.len() as i128)),
+                ("origin", Json::s(origin)),
+                ("shard_seed", Json::Int(ctl.params.seed as i128)),
+            ]),
+        );
+    }
+    (tail_applied, true)
+}
+
+fn shard_index(params: &Params) -> usize {
+    params.shard.rsplit('-').next().and_then(|s| s.parse().ok()).unwrap_or(0)
+}
+
+fn part_l1x(ctl: &Ctl, rep: &mut Report) {
+    let depth = ctl.params.get_u64("depth", if ctl.params.thorough() { 5 } else { 4 }) as usize;
+    let nshards = ctl.params.get_u64("nshards", 1).max(1) as usize;
+    let me = shard_index(ctl.params) % nshards;
+    let mut item = 0usize;
+    let mut complete = true;
+    for (cname, cfg, spec) in exh_configs() {
+        let alpha = exh_alphabet(&spec);
+        let prelude = exh_prelude(&spec);
+        for first in 0..alpha.len() {
+            item += 1;
+            if (item - 1) % nshards != me {
+                continue;
+            }
+            // iterative DFS over letter indices, first letter fixed
+            let mut stack: Vec<Vec<usize>> = vec![vec![first]];
+            while let Some(seq) = stack.pop() {
+                if !rep.in_budget() {
+                    complete = false;
+                    break;
+                }
+                let mut ops = prelude.clone();
+                let mut tail_from = 0;
+                for (k, li) in seq.iter().enumerate() {
+                    if k + 1 == seq.len() {
+                        tail_from = ops.len();
+                    }
+                    ops.extend(alpha[*li].1.iter().cloned());
+                }
+                let origin = format!("l1x cfg={} letters={}", cname, seq.iter().map(|i| alpha[*i].0).collect::<Vec<_>>().join(","));
+                let (applied, violated) = evaluate(ctl, rep, 1, &cfg, &ops, 0, &origin, tail_from);
+                if !applied {
+                    continue;
+                }
+                rep.count(&format!("l1x:sequences:d{}", seq.len()));
+                if !violated && seq.len() < depth {
+                    for nx in (0..alpha.len()).rev() {
+                        let mut s = seq.clone();
+                        s.push(nx);
+                        stack.push(s);
+                    }
+                }
+            }
+        }
+    }
+    if complete {
+        rep.count(&format!("l1x:d{}:complete-shards", depth));
+    } else {
+        rep.count("l1x:budget-cut");
+    }
+}
+
+fn part_random(ctl: &Ctl, rep: &mut Report, layer: u8) {
+    let lname = if layer == 1 { "l1r" } else { "l2" };
+    let count = ctl.params.get_u64("count", if layer == 1 { ctl.params.n(1500, 40000) } else { ctl.params.n(80, 1200) });
+    let only = ctl.params.get("only").and_then(|s| s.parse::<u64>().ok());
+    let mut rng = Rng::new(ctl.params.seed ^ (0xC10 + layer as u64));
+    for idx in 0..count {
+        if !rep.in_budget() {
+            rep.count(&format!("{}:budget-cut", lname));
+            break;
+        }
+        let cfg = gen_cfg(&mut rng, layer);
+        let len = rng.range(3, if layer == 1 { 24 } else { 14 }) as usize;
+        let ops = gen_ops(&mut rng, layer, len);
+        let seed = rng.next_u64();
+        if only.is_some_and(|o| o != idx) {
+            continue;
+        }
+        let origin = format!("{} history {} (VERIF_PART={} VERIF_ONLY={})", lname, idx, lname, idx);
+        evaluate(ctl, rep, layer, &cfg, &ops, seed, &origin, 0);
+    }
+}
 
 #[test]
 fn run() {
     let params = Params::from_args_env();
-    let rep = Report::new("C10", &params);
+    let mut rep = Report::new("C10", &params);
+    let rt = tokio::runtime::Builder::new_current_thread().enable_all().build().expect("runtime");
+    let part = params.get("part").unwrap_or("all").to_string();
+    let listener = if part == "l2" || part == "all" {
+        match rt.block_on(TcpListener::bind("127.0.0.1:0")) {
+            Ok(l) => Some(l),
+            Err(e) => {
+                rep.inconclusive(&format!("cannot bind a loopback listener: {}", e));
+                let _ = rep.finish();
+                return;
+            }
+        }
+    } else {
+        None
+    };
+    {
+        let ctl = Ctl { rt: &rt, listener: listener.as_ref(), params: &params };
+        if part == "l1x" || part == "all" {
+            part_l1x(&ctl, &mut rep);
+        }
+        if part == "l1r" || part == "all" {
+            part_random(&ctl, &mut rep, 1);
+        }
+        if part == "l2" || part == "all" {
+            part_random(&ctl, &mut rep, 2);
+        }
+    }
     let _ = rep.finish();
 }
